@@ -391,6 +391,8 @@ func (e *Engine) heapSortByName(c *FnCtx, name string) (string, bool) {
 		return "Int", true
 	case "OPAQUE":
 		return "Int", true
+	case "GH_owned":
+		return "(Array Int Bool)", true
 	case "GH_out":
 		return "(Array Int Str)", true
 	case "HC_bool":
@@ -453,4 +455,17 @@ func (e *Engine) relFile(fn *ssa.Function) string {
 		return name[i+6:]
 	}
 	return strings.TrimPrefix(name, e.repo+"/")
+}
+
+// qualKeyShort: "sort.Slice", "maps.Copy" (package name, generic arguments dropped).
+func (e *Engine) qualKeyShort(fn *ssa.Function) string {
+	pk := e.fnPkg(fn)
+	if pk == nil {
+		return fn.Name()
+	}
+	name := fn.Name()
+	if i := strings.Index(name, "["); i >= 0 {
+		name = name[:i]
+	}
+	return pk.Pkg.Name() + "." + name
 }
